@@ -60,11 +60,12 @@ P = {
     "C14": ("explicit iteration  Layer::forward -> cost -> backward -> GradientDescent::update(Layer::parameters())  for Dense (1->1, 2->1, relu, mse/bilinear cost, "
             "1-2 iterations) and Conv (one layer, and a two-layer stack): loss == reference loss of the current parameters, every parameter moves by -lr x the "
             "forward-mode gradient, parameters tracked / gradient-free / graph-free / no residue (hook) after every update",
-            "the bodies of Model::{forward,backward,update} are NOT executed (their encoding does not finish, DESIGN.md closing note): a change confined to those three "
-            "methods is outside what this check can see; <= 2 iterations (3 in thorough for 1->1)"),
+            "the iteration is the explicit sequence: Model::update / Model::parameters are NOT executed (their encoding does not finish, DESIGN.md closing note) - a change confined to "
+            "them is outside what this check can see (Model::forward/backward are executed by C15/C18 obligations); quick = one iteration + clean-state assertions (inductive step), "
+            "thorough = up to 2-3 iterations, mse, batches of two, conv->conv"),
     "C15": ("Dense x {none, relu, sigmoid, softmax} x {[in], [1,in], [2,in]}, Conv layer x batch x stride incl. bias [F,1,1] broadcast into a batch, two-layer "
             "composition, mse, cross-entropy (rank 1-3), loss == sum of the cost array: every output element equals the documented formula evaluated by the reference",
-            "composition and 'value returned by backward' are decided for the explicit composition / cost(..).sum_all(), not through Model"),
+            "Model::forward (composition) and Model::backward (returned loss, gradients) ARE executed (model_forward / model_backward, Dense 1->1 stacks); Model::update is not (see C14)"),
     "C16": ("SYMBOLIC dimensions (rank 1-4, extents 1..5 quick / 1..8 thorough) and symbolic indices: multi-index and flat index address the row-major element, "
             "out-of-range flat index refused; constructor from (dims, values) with symbolic dims incl. 0 and symbolic length: accepted iff valid; zeros; nested "
             "arr! depth 1-3 and mismatching nests refused; == iff dims and values equal across tracking state / graph / gradient / storage-sharing views",
@@ -74,7 +75,7 @@ P = {
             "programs on shapes [2], [2,2]"),
     "C18": ("programs x {no pass, 1 pass, 2 passes} with every derived handle REALLY dropped (drop glue verified, not forgotten): every leaf unwraps as sole owner "
             "(Vec::from), hook: owner count 1, no counter/delta residue; stored gradients carry no graph",
-            "the training-loop clause is decided on the explicit sequence only (see C14)"),
+            "the training-loop clause is decided through the real Model for forward/backward/forward-again (model_release); Model::update is not executed (see C14)"),
     "C19": ("the obligations of C01-C07 (3 per property + 6 width-sensitive reductions in quick; all quick cores in thorough) recompiled with --features f32 in "
             "their own Kani target: identical assertions (exact domains are exact in f32 too), tolerance 1e-4 where inexact",
             "only the re-run obligations; real-number accuracy of f32 exp/ln outside"),
